@@ -1059,6 +1059,16 @@ theorem frontEndRunsBeforeAnyTargetSpecificStep :
     mslArmSteps = [.exportSource, .stageRecords, .bytecodeGuard, .toolchainLookup, .toolchainRun] ∧
     stepFacts = ⟨true, true, true, true, true, true⟩ := by decide
 
+/-- Tie to the source: the Metal tool chain crate is named nowhere in the compiler crates (front end, IR, exporters)
+    but in `build_pipeline` (the one lookup; the other two hits are the payload types of the two `CompileError` variants
+    declared after it), the error's `Display`, and the re-export in src/lib.rs - no exporter or pass can ask for it. -/
+theorem toolchain_uses_covered :
+    toolchainUses = [
+      ("src/compile.rs", "build_pipeline", "MetalCompiler", 1),
+      ("src/compile.rs", "build_pipeline", "metal_invoker", 3),
+      ("src/compile.rs", "fmt", "metal_invoker", 1),
+      ("src/lib.rs", "?", "metal_invoker", 1)] := by decide
+
 /-- **compile() = argument check, then the shared front end, then the per-pipeline builds** - for the step order of the
     current source (`frontEndRunsBeforeAnyTargetSpecificStep` is cited: the interpreter runs the *extracted* list), any
     world (parser, type checker, exporters, tool chain), any arguments.  In particular no step that looks at the target
